@@ -245,4 +245,116 @@ def unpackByteLoop (byte : Nat) (boolean : Bool) : List Nat → Nat → Except E
 def unpackByte (fmt : List Nat) (byte : Int) (boolean : Bool) : Except Err (List Fld) :=
   unpackByteLoop (byte % 256).toNat boolean fmt 8
 
+
+
+/-! ### the format TEXT: `fmt.split()` and `int(token)` (ASCII) -/
+
+/-- `str.isspace` on ASCII: TAB LF VT FF CR, FS GS RS US, SPACE — what `str.split()` splits on -/
+def isSpace (c : Char) : Bool :=
+  c.toNat == 32 || (9 ≤ c.toNat && c.toNat ≤ 13) || (28 ≤ c.toNat && c.toNat ≤ 31)
+
+def isDigit (c : Char) : Bool := 48 ≤ c.toNat && c.toNat ≤ 57
+def digitOf (c : Char) : Nat := c.toNat - 48
+
+/-- `fmt.split()`: maximal runs of non-whitespace characters; `cur` is the current run, reversed -/
+def tokensAux : List Char → List Char → List (List Char)
+  | [], cur => if cur.isEmpty then [] else [cur.reverse]
+  | c :: cs, cur =>
+    if isSpace c then
+      if cur.isEmpty then tokensAux cs [] else cur.reverse :: tokensAux cs []
+    else tokensAux cs (c :: cur)
+
+def tokens (s : List Char) : List (List Char) := tokensAux s []
+
+/-- the digits of `int(token)` after the first digit: digits, single underscores between digits -/
+def digitsLoop : List Char → Nat → Option Nat
+  | [], acc => some acc
+  | c :: rest, acc =>
+    if c = '_' then
+      match rest with
+      | d :: rest' => if isDigit d then digitsLoop rest' (acc * 10 + digitOf d) else none
+      | [] => none
+    else if isDigit c then digitsLoop rest (acc * 10 + digitOf c) else none
+
+def parseDigits : List Char → Option Nat
+  | [] => none
+  | c :: rest => if isDigit c then digitsLoop rest (digitOf c) else none
+
+/-- `int(token)` for an ASCII token without surrounding white space (`none` = `ValueError`) -/
+def parseInt : List Char → Option Int
+  | '+' :: rest => (parseDigits rest).map Int.ofNat
+  | '-' :: rest => (parseDigits rest).map (fun n => -(Int.ofNat n))
+  | s => (parseDigits s).map Int.ofNat
+
+/-- `[int(x) for x in fmt.split()]`; the first bad token raises `ValueError` -/
+def parseFmt (s : List Char) : Except Err (List Int) :=
+  match (tokens s).mapM parseInt with
+  | some ws => .ok ws
+  | none => .error .valueError
+
+/-- `packify(fmt=text, ...)`: the text is parsed (inside `sum(...)`) before anything else -/
+def packifyText (fmt : List Char) (fields : List Int) (size : Option Int) (reverse : Bool) :
+    Except Err (List Byte) :=
+  match parseFmt fmt with
+  | .error e => .error e
+  | .ok ws => packify ws fields size reverse
+
+def unpackifyText (fmt : List Char) (b : List Byte) (boolean : Bool) (size : Option Int)
+    (reverse : Bool) : Except Err (List Fld) :=
+  match parseFmt fmt with
+  | .error e => .error e
+  | .ok ws => unpackify ws b boolean size reverse
+
+/-! ### packifyInto in full: any offset, any buffer type, the buffer after an exception -/
+
+/-- what the caller passed as `b` -/
+inductive BufKind where
+  | bytearray | list | bytes
+  deriving DecidableEq
+
+/-- more exceptions (`bytes` has no `extend` / no item assignment) -/
+inductive IntoErr where
+  | codec (e : Err)
+  | attributeError
+  | typeErrorAssign
+  deriving DecidableEq
+
+/-- Python `b[i:j] = v` (step 1) on a sequence of length `n`: bounds as `slice.indices` computes them -/
+def sliceBounds (n : Nat) (i j : Int) : Nat × Nat :=
+  let cl (k : Int) : Nat := (if k < 0 then max (k + n) 0 else min k n).toNat
+  let lo := cl i
+  let hi := cl j
+  (lo, if hi < lo then lo else hi)
+
+def sliceAssign (b : List Byte) (i j : Int) (v : List Byte) : List Byte :=
+  let (lo, hi) := sliceBounds b.length i j
+  b.take lo ++ v ++ b.drop hi
+
+/-- `packifyInto(b, fmt, fields, size, offset, reverse)`: the content of the caller's buffer after
+the call — also when it raises — and the result.  Statement order of the code: parse + size
+check (nothing touched yet), zero-extension, field loop (may raise with the buffer already
+extended), slice assignment. -/
+def packifyIntoFull (kind : BufKind) (b : List Byte) (fmt : List Int) (fields : List Int)
+    (size : Option Int) (offset : Int) (reverse : Bool) : List Byte × Except IntoErr Nat :=
+  match checkSize fmt size with
+  | .error e => (b, .error (.codec e))
+  | .ok size =>
+    let short : Bool := decide ((b.length : Int) < offset + size)
+    if short && kind == .bytes then (b, .error .attributeError)       -- bytes has no extend
+    else
+      let b := if short then b ++ List.replicate (offset + size - b.length).toNat 0#8 else b
+      match packLoop fmt fields 0 (8 * size) with
+      | .error e => (b, .error (.codec e))
+      | .ok (n, _) =>
+        if kind == .bytes then (b, .error .typeErrorAssign)           -- item assignment
+        else
+          let bp := bytify n size reverse true
+          (sliceAssign b offset (offset + bp.length) bp, .ok size)
+
+/-- Region of known finding D40b: a negative offset whose slice end `offset + size` is not negative
+any more — Python then reads the end as an index from the FRONT and inserts instead of overwriting -/
+def negOffsetInserts (offset : Int) (size : Nat) : Bool :=
+  decide (offset < 0) && decide (0 ≤ offset + size) && decide (0 < size)
+
+
 end Ioflo.Bits
